@@ -194,6 +194,16 @@ func (b *termBuilder) build(v ssa.Value, d int) *Term {
 			return it
 		}
 		t := &Term{Op: "call", Sym: CalleeName(x.Common()), Call: x}
+		if t.Sym == "builtin:min" || t.Sym == "builtin:max" {
+			// the built-ins read like the repository's own variadic helpers ints.Min / ints.Max
+			t.Sym = map[string]string{"builtin:min": "collection/ints.Min[builtin]", "builtin:max": "collection/ints.Max[builtin]"}[t.Sym]
+			lst := &Term{Op: "list"}
+			for _, a := range x.Common().Args {
+				lst.Args = append(lst.Args, b.of(a, d+1))
+			}
+			t.Args = []*Term{lst}
+			return t
+		}
 		if x.Common().IsInvoke() {
 			t.Args = append(t.Args, b.of(x.Common().Value, d+1))
 		}
